@@ -146,7 +146,7 @@ static void exec_restart(Plan const& p, Report& rep)
     for (u64 mask : masks)
     {
         Session run(q, rep);
-        run.check = false;   // the reference run had every oracle armed; resumed runs are compared as a whole
+        run.check = true;    // every oracle is armed in resumed runs as well (state threading, protocol, ...)
         run.fresh();
         fs().files.clear();
         u64 done = 0;
@@ -967,6 +967,11 @@ static Plan gen_modes(Rng& r, int tier, std::string const&)
     p.fk = r.pick(fk);
     p.cbk = 0;
     p.target = 0;
+    {
+        // a target precision: the stop decision must not depend on the mode either
+        static ld const targets[] = {0.5L, 0.2L, 0.1L, 0.03L, 0.01L, 0.001L};
+        if (r.chance(0.5)) p.target = r.pick(targets);
+    }
     for (auto& d : p.dists) d.name = "d";
     if (r.chance(0.3))
     {
@@ -1186,6 +1191,9 @@ static Plan gen_mpi(Rng& r, int tier, std::string const& focus)
     {
         for (auto& c : p.calls) c = std::max<u64>(c, 2);
         if (p.fk == F_ZERO || p.fk == F_CONST) p.fk = F_POLY;
+        // early stop by target precision: every rank has to take the same decision
+        static ld const targets[] = {0.5L, 0.2L, 0.1L, 0.03L, 0.01L, 0.001L};
+        if (r.chance(0.5)) p.target = r.pick(targets);
     }
     p.stop = (p.cbk == 1 && r.chance(0.2)) ? static_cast<std::int64_t>(1 + r.below(p.calls.size())) : -1;
     p.variant = r.below(4);   // stall probability class; 3 = with poison
@@ -1234,37 +1242,8 @@ static bool mpi_segment(Plan const& p, Session& s, std::vector<u64> const& seg_c
     u64 const numbers = p.dims + (p.integ == MULTI ? 1 : 0);
     u64 const per_call = numbers * ui.predicted;
 
-    // (a) same collectives on every rank
-    for (u64 r = 1; r < P; ++r)
-    {
-        auto const& a = o.ranks[0].colls;
-        auto const& b = o.ranks[r].colls;
-        bool same = a.size() == b.size();
-        for (std::size_t i = 0; same && i != a.size(); ++i) same = a[i].count == b[i].count && a[i].dtype == b[i].dtype;
-        if (!same)
-        {
-            rep.fail("C04", "collectives-differ", key, fmt("rank %llu executed another sequence of collectives than rank 0",
-                (unsigned long long) r));
-            return false;
-        }
-    }
-
-    // (e) all ranks return the same checkpoint, file from rank 0 only
-    for (u64 r = 1; r < o.rank_texts.size(); ++r)
-    {
-        if (o.rank_texts[r] != o.rank_texts[0])
-        {
-            rep.fail("C04", "ranks-differ", key, fmt("rank %llu returned another checkpoint than rank 0", (unsigned long long) r));
-            return false;
-        }
-    }
-    if ((fs().writer_rank_mask & ~1) != 0)
-    {
-        rep.fail("C04", "file-from-non-root", key, "a rank other than 0 wrote a checkpoint file");
-        return false;
-    }
-
     // C16: tiling of the engine positions
+    auto const tiling = [&]()
     {
         u64 coll = 0;
         u64 start = 0;   // position (raw outputs consumed) at which the iteration starts, same on every rank
@@ -1295,7 +1274,7 @@ static bool mpi_segment(Plan const& p, Session& s, std::vector<u64> const& seg_c
                 rep.fail("C16", "share-sizes", k16, fmt("iteration %llu: shares sum to %llu (min %llu, max %llu), total is %llu",
                     (unsigned long long) k, (unsigned long long) total, (unsigned long long) mn, (unsigned long long) mx,
                     (unsigned long long) N));
-                return false;
+                return;
             }
             u64 expect = start;
             for (u64 r = 0; r != P; ++r)
@@ -1306,7 +1285,7 @@ static bool mpi_segment(Plan const& p, Session& s, std::vector<u64> const& seg_c
                         "iteration %llu: rank %llu starts at stream position %llu, the shares before it end at %llu",
                         (unsigned long long) k, (unsigned long long) r, (unsigned long long) first[r],
                         (unsigned long long) expect));
-                    return false;
+                    return;
                 }
                 expect += count[r] * per_call;
                 if (enter[r] != start + N * per_call)
@@ -1315,13 +1294,44 @@ static bool mpi_segment(Plan const& p, Session& s, std::vector<u64> const& seg_c
                         "iteration %llu: rank %llu enters the collective at stream position %llu, expected %llu",
                         (unsigned long long) k, (unsigned long long) r, (unsigned long long) enter[r],
                         (unsigned long long) (start + N * per_call)));
-                    return false;
+                    return;
                 }
                 if (count[r] == 0) rep.probes["empty-share"]++;
             }
             start += N * per_call;
             coll += 2;
         }
+    };
+    tiling();
+
+    // (a) same collectives on every rank
+    for (u64 r = 1; r < P; ++r)
+    {
+        auto const& a = o.ranks[0].colls;
+        auto const& b = o.ranks[r].colls;
+        bool same = a.size() == b.size();
+        for (std::size_t i = 0; same && i != a.size(); ++i) same = a[i].count == b[i].count && a[i].dtype == b[i].dtype;
+        if (!same)
+        {
+            rep.fail("C04", "collectives-differ", key, fmt("rank %llu executed another sequence of collectives than rank 0",
+                (unsigned long long) r));
+            return false;
+        }
+    }
+
+    // (e) all ranks return the same checkpoint, file from rank 0 only
+    for (u64 r = 1; r < o.rank_texts.size(); ++r)
+    {
+        if (o.rank_texts[r] != o.rank_texts[0])
+        {
+            rep.fail("C04", "ranks-differ", key, fmt("rank %llu returned another checkpoint than rank 0", (unsigned long long) r));
+            return false;
+        }
+    }
+    if ((fs().writer_rank_mask & ~1) != 0)
+    {
+        rep.fail("C04", "file-from-non-root", key, "a rank other than 0 wrote a checkpoint file");
+        return false;
     }
 
     // (b) - (d): per iteration against the public serial iteration
@@ -1494,7 +1504,7 @@ static void exec_mpi(Plan const& p, Report& rep)
 
     // aux = {split, P2}: the job is stopped after `split` iterations, restarted from the text with P2
     // ranks (a different world size is legal: only the text survives)
-    u64 const split = (p.aux.size() >= 2 && p.aux[0] > 0 && p.aux[0] < p.calls.size() && p.stop < 0) ? p.aux[0] : 0;
+    u64 const split = (p.aux.size() >= 2 && p.aux[0] > 0 && p.aux[0] < p.calls.size() && p.stop < 0 && p.target == 0) ? p.aux[0] : 0;
 
     if (split == 0)
     {
@@ -1514,7 +1524,7 @@ static void exec_mpi(Plan const& p, Report& rep)
     }
 
     // P = 1 must reproduce the serial integrator's text exactly
-    if (P == 1 && p.stop < 0)
+    if (P == 1 && p.stop < 0 && split == 0)
     {
         Plan q = p;
         q.P = 0;
